@@ -47,9 +47,8 @@ def main():
         if is_rs:
             shutil.copyfile(os.path.join(out, demo), os.path.join(wt, crate, "tests", "demo.rs"))
             rc, o = sh("timeout 2400 cargo test --offline -p %s --test demo 2>&1 | tail -30" % crate, wt, env=env)
-            ok = "test result: ok" in o and "FAILED" not in o and "error" not in o.split("test result")[0][-2000:].lower().replace("0 failed", "")
-            failed = "FAILED" in o or "test result: FAILED" in o or "panicked" in o
-            return (ok and not failed), o
+            ok = "test result: ok" in o and "test result: FAILED" not in o and "error: could not compile" not in o and "error[E" not in o
+            return ok, o
         else:
             shutil.copyfile(os.path.join(out, demo), os.path.join(wt, demo))
             rc, o = sh("bash -o pipefail -c 'timeout 2400 bash %s 2>&1 | tail -30'" % demo, wt, env=env)
